@@ -9,7 +9,8 @@ import TakVerif.Model.Core
 namespace Tak
 namespace Gen
 
-/-- `_compute_slides(size)`: for i in 1..size: (i,), then (i,)+inner for inner in ALL_SLIDES[size-i] -/
+/-- `_compute_slides(size)`: for i in 1..size: (i,), then (i,)+inner for inner in ALL_SLIDES[size-i]
+    (`ALL_SLIDES[0] = ()`, i.e. nothing to iterate over). -/
 def slides : Nat → List (List Nat)
   | 0 => []
   | n + 1 =>
@@ -18,6 +19,7 @@ def slides : Nat → List (List Nat)
 termination_by n => n
 decreasing_by omega
 
+/-- `Move(x, y, d, slide)` for a slide taken from `ALL_SLIDES` -/
 def slideMove (x y : Nat) (t : MoveType) (s : List Nat) : Move :=
   ⟨x, y, t, some (s.map Int.ofNat)⟩
 
@@ -25,41 +27,57 @@ def slideMove (x y : Nat) (t : MoveType) (s : List Nat) : Move :=
 def dirs (size x y : Nat) : List (MoveType × Nat) :=
   [(.left, x), (.right, size - x - 1), (.down, y), (.up, size - y - 1)]
 
-/-- `all_moves_for_size(size)` -/
-def allMovesForSize (size : Nat) : List Move :=
-  (List.range size).flatMap fun x =>
-    (List.range size).flatMap fun y =>
-      [⟨x, y, .placeFlat, none⟩, ⟨x, y, .placeStanding, none⟩, ⟨x, y, .placeCap, none⟩] ++
-      (slides size).flatMap fun s =>
-        (dirs size x y).filterMap fun (d, l) =>
-          if s.length ≤ l then some (slideMove x y d s) else none
+/-- the double loop shared by `all_moves_for_size` and `Position.all_moves`:
+    `for slide in ALL_SLIDES[size]: for d, l in dirs: if cond(slide, l): out.append(Move(x, y, d, slide))` -/
+def slideLoop (size x y : Nat) (cond : List Nat → Nat → Bool) : List Move :=
+  (slides size).flatMap fun s =>
+    (dirs size x y).filterMap fun dl =>
+      if cond s dl.2 then some (slideMove x y dl.1 s) else none
 
-/-- `Position.all_moves()` -/
-def allMoves (p : Pos) : List Move :=
+/-- the three placements appended for a square, in the Python's order -/
+def placements (x y : Nat) : List Move :=
+  [⟨x, y, .placeFlat, none⟩, ⟨x, y, .placeStanding, none⟩, ⟨x, y, .placeCap, none⟩]
+
+/-- `for x in range(size): for y in range(size): <cell x y>` -/
+def grid (size : Nat) (cell : Nat → Nat → List Move) : List Move :=
+  (List.range size).flatMap fun x => (List.range size).flatMap fun y => cell x y
+
+/-- body of the square loop of `all_moves_for_size` -/
+def tableCell (size x y : Nat) : List Move :=
+  placements x y ++ slideLoop size x y fun s l => decide (s.length ≤ l)
+
+/-- `all_moves_for_size(size)` -/
+def allMovesForSize (size : Nat) : List Move := grid size (tableCell size)
+
+/-- body of the square loop of `Position.all_moves` (`to_move`, `has_cap` computed before the loop) -/
+def genCell (p : Pos) (x y : Nat) : List Move :=
   let toMove := p.toMove
   let hasCap := decide (p.caps toMove > 0)
-  (List.range p.size).flatMap fun x =>
-    (List.range p.size).flatMap fun y =>
-      match p.sq x y with
-      | [] =>
-        [⟨x, y, .placeFlat, none⟩, ⟨x, y, .placeStanding, none⟩] ++
-          (if hasCap then [⟨x, y, .placeCap, none⟩] else [])
-      | top :: rest =>
-        if top.color ≠ toMove then []
-        else
-          (slides p.size).flatMap fun s =>
-            (dirs p.size x y).filterMap fun (d, l) =>
-              if s.length ≤ l ∧ s.length ≤ (top :: rest).length then some (slideMove x y d s) else none
+  match p.sq x y with
+  | [] =>
+    [⟨x, y, .placeFlat, none⟩, ⟨x, y, .placeStanding, none⟩] ++
+      (if hasCap then [⟨x, y, .placeCap, none⟩] else [])
+  | top :: rest =>
+    if top.color ≠ toMove then []
+    else slideLoop p.size x y fun s l => decide (s.length ≤ l ∧ s.length ≤ (top :: rest).length)
 
-/-- `decode_move(size, id)` = `MOVES_BY_SIZE[size][id]` (`none`: IndexError) -/
+/-- `Position.all_moves()` -/
+def allMoves (p : Pos) : List Move := grid p.size (genCell p)
+
+/-- `decode_move(size, id)` = `MOVES_BY_SIZE[size][id]` for `id ≥ 0` (`none`: IndexError) -/
 def decodeMove (size id : Nat) : Option Move := (allMovesForSize size)[id]?
 
-/-- `encode_move(size, m)` = `MOVES_TO_ID[size][m]` (`none`: KeyError).  The Python dict maps a
-    move to the LAST index holding it; the table has no duplicates (C07), so first = last. -/
-def encodeMove (size : Nat) (m : Move) : Option Nat :=
-  let t := allMovesForSize size
-  let i := t.idxOf m
-  if i < t.length then some i else none
+/-- index under which `{m: i for (i, m) in enumerate(moves)}` files `m`: a later entry
+    overwrites an earlier one, so it is the LAST index holding `m` (`none`: KeyError) -/
+def lastIdxOf (m : Move) : List Move → Option Nat
+  | [] => none
+  | a :: t =>
+    match lastIdxOf m t with
+    | some i => some (i + 1)
+    | none => if a = m then some 0 else none
+
+/-- `encode_move(size, m)` = `MOVES_TO_ID[size][m]` (`none`: KeyError) -/
+def encodeMove (size : Nat) (m : Move) : Option Nat := lastIdxOf m (allMovesForSize size)
 
 end Gen
 end Tak
